@@ -130,6 +130,7 @@ class Evaluator:
         self.funcs = funcs or {}
         self.on_call = on_call
         self.modset = modset  # dotted "self.m" -> set of self attributes the method may assign (None: not a method)
+        self.handler_names: Callable = q.handler_names  # rules may resolve module-level tuple constants in `except` clauses
         self.fallback: Optional[Callable] = None  # (state, call ast, dotted, args) -> value | NotImplemented, for calls that are not interpreted
         self.inline: Optional[Callable] = None  # dotted "self.m" -> FunctionDef to interpret at statement level (else havoc by mod-set)
         self.depth = 0
@@ -670,6 +671,10 @@ class Evaluator:
             return out
         if isinstance(s, ast.Try):
             return self._try(s, st)
+        if isinstance(s, ast.Break):
+            return [(st, "break")]
+        if isinstance(s, ast.Continue):
+            return [(st, "continue")]
         raise AnalysisError("abstract interpreter: statement %s not modelled (line %s)" % (type(s).__name__, getattr(s, "lineno", "?")))
 
     def _try(self, s: ast.Try, st: State):
@@ -681,7 +686,7 @@ class Evaluator:
                 cls = status[1] or ""
                 handled = False
                 for h in s.handlers:
-                    names = q.handler_names(h)
+                    names = self.handler_names(h)
                     if cls == "<reraise>" or q.exc_is_caught(cls, names) or q.exc_is_caught(cls.split(".")[-1], names):
                         if h.name:
                             y.env[h.name] = UNK
